@@ -45,7 +45,8 @@
 #  define V_IN_DECL(type, name) type vin_##name;
 #  define V_IN_INIT(type, name) { type v_tmp_##name; vin_##name = v_tmp_##name; }
 #  define V_INVALID_PTR(T)     ((T)v_invalid_ptr())
-static inline void *v_invalid_ptr(void) { void *p; __CPROVER_assume(p != NULL && !__CPROVER_r_ok(p, 1)); return p; }
+/* a non-NULL pointer that must never be dereferenced: a released object (any access fails pointer-check) */
+static inline void *v_invalid_ptr(void) { void *p = malloc(1); __CPROVER_assume(p != NULL); free(p); return p; }
 #else
 /* ---- native ---------------------------------------------------------------------------------- */
 #  include <stdio.h>
@@ -71,6 +72,8 @@ void *v_invalid_ptr(void);
 /* Inputs of a harness: X-macro list  #define H_INPUTS(X) X(uint64_t,len) X(uint8_t,kase) ...  */
 #define V_DEFINE_INPUTS(LIST) LIST(V_IN_DECL) static void v_inputs_init(void) { LIST(V_IN_INIT) }
 
+#define V_IN_INIT2(type, name) V_IN_INIT(type, name)
+#define V_DEFINE_INPUTS_2(LIST) LIST(V_IN_DECL) static void v_inputs2_init(void) { LIST(V_IN_INIT) }
 #define V_IMP(a, b) (!(a) || (b))
 
 #endif
